@@ -48,7 +48,10 @@
      IoRC1   207                                            R will_close       -> return (release)
      IoRC2   207                                            R close_when_flushed -> return (release)
      IoRCloop 210-243 one iteration per item of the data: a completed non-empty request:
-             231 requests.append (R requests + append, see ABSTRACTIONS)      [LQueued]
+             231 `self.requests.append(self.request)`: R requests (the list object is loaded),
+     IoRCapp  then, after `self.request` has been loaded, the append          [LQueued]
+             (IoRCappX: cancel() has replaced self.requests by a new list in between: the append
+             goes to the old list and is lost);
              or a head with Expect: 100-continue: 224 send_continue(), whose _flush_some
              (do_close=True) may hit a disconnect errno -> handle_close      [DHandleClose]
      IoRClen 233                                            R requests (len == 1)
@@ -104,7 +107,8 @@
 
    SD:  SdIdle: shutdown's `task = queue.popleft()` (task.py:133, under the dispatcher lock)
         SdC1 520 W will_close := True [DCancelWC]; SdC2 521 W connected := False [DCancelConn];
-        SdC3 523 W requests := []; back to SdIdle (`while queue`).
+        SdC3 523 W requests := [] (a NEW list object: an append in flight at IoRCapp is lost);
+        back to SdIdle (`while queue`).
 
    ABSTRACTIONS, and why they are sound for C11 (a safety property of the label trace):
    * total_outbufs_len, outbufs, outbuf_lock, the trigger, last_activity and the bytes are not
@@ -116,8 +120,10 @@
      100-continue heads; partial data is the empty list.  Parsing itself is C01/C02.
    * the task: only its reads of `connected` in write_soon, its worker-side flush errors and
      its verdict close_on_finish are kept; an error request never calls the application.
-   * requests.append / requests.pop(0) / len(requests) are one step each although CPython loads
-     the attribute first: only cancel() replaces the list object without the lock.
+   * requests.pop(0) / requests[0] / len(requests) / iteration are one step each although CPython
+     loads the attribute first: only cancel() replaces the list object without the lock, and
+     cancel() runs only on a channel taken from the dispatcher queue, i.e. while no worker is
+     inside service() (invariant i_act_excl).  The append of received() IS split (IoRCapp).
    * workers never exit (set_thread_count(0) would only remove behaviours).
    * handle_close by the I/O thread is one step (its wait for outbuf_lock is not modelled: the
      schedule can delay the step for as long as it likes, which covers the wait).
@@ -164,7 +170,7 @@ Inductive iopc :=
 | IoTop | IoR2 | IoR3 | IoR4 | IoW1 | IoW2 | IoW3 | IoSel
 | IoM1 | IoM2
 | IoHR | IoHRc1 | IoHRc2 | IoEof
-| IoRC0 | IoRC1 | IoRC2 | IoRCloop | IoRClen | IoRCadd | IoRCrel
+| IoRC0 | IoRC1 | IoRC2 | IoRCloop | IoRCapp | IoRCappX | IoRClen | IoRCadd | IoRCrel
 | IoHW0 | IoHW1 | IoHW1b | IoHW2 | IoHW3 | IoHW4 | IoHW5
 | IoDead.
 
@@ -359,14 +365,24 @@ Definition step_io (s : state) (e : ioenv) : option (state * list label) :=
   | IoRCloop, ENone =>
       match items s with
       | [] => let s1 := set_rlock s None in Some (set_io s1 (after_read s1), [])
-      | IReq e :: rest =>
-          let r := mkReq (nreq s) e in
-          Some (set_io (set_items (set_nreq (set_reqs s (reqs s ++ [r])) (S (nreq s))) rest) IoRClen,
-                [LQueued (nreq s)])
+      | IReq e :: rest => Some (set_io s IoRCapp, [])
       | ICont dc :: rest =>
           if dc then Some (set_items (decide (handle_close s) DHandleClose) rest, [LDecide DHandleClose])
           else Some (set_items s rest, [])
       | IAbort :: _ => Some (set_io (set_rlock (set_items s []) None) IoHRc2, [])
+      end
+  | IoRCapp, ENone =>
+      match items s with
+      | IReq e :: rest =>
+          let r := mkReq (nreq s) e in
+          Some (set_io (set_items (set_nreq (set_reqs s (reqs s ++ [r])) (S (nreq s))) rest) IoRClen,
+                [LQueued (nreq s)])
+      | _ => None
+      end
+  | IoRCappX, ENone =>
+      match items s with
+      | IReq e :: rest => Some (set_io (set_items (set_nreq s (S (nreq s))) rest) IoRClen, [])
+      | _ => None
       end
   | IoRClen, ENone =>
       if Nat.eqb (length (reqs s)) 1 then Some (set_io s IoRCadd, []) else Some (set_io s IoRCloop, [])
@@ -446,7 +462,9 @@ Definition step_sd (s : state) : option (state * list label) :=
       end
   | SdC1 => Some (set_sd (decide (set_wc s true) DCancelWC) SdC2, [LDecide DCancelWC])
   | SdC2 => Some (set_sd (decide (set_conn s false) DCancelConn) SdC3, [LDecide DCancelConn])
-  | SdC3 => Some (set_sd (set_reqs s []) SdIdle, [])
+  | SdC3 =>
+      let s1 := set_reqs s [] in
+      Some (set_sd (match io s with IoRCapp => set_io s1 IoRCappX | _ => s1 end) SdIdle, [])
   end.
 
 Definition step (s : state) (c : choice) : option (state * list label) :=
